@@ -2,6 +2,7 @@
 //!   sanity pair <off1> <logbits1> <logregion1> <off2> <logbits2> <logregion2>   → true|false
 //!   sanity ctx <ng> (off lb lr)*ng <nl> (off lb lr)*nl                          → ok | panic:*
 //!   sanity range <logbits> <logregion>                                          → size of the range
+//!   sanity multi <ng> (off lb lr)*ng <np> (<nl> (off lb lr)*nl)*np              → ok | panic:*   (one checker, np policies)
 use crate::proto::*;
 use mmtk::util::metadata::side_metadata::SideMetadataSpec;
 
@@ -47,6 +48,37 @@ pub fn run(args: &[&str]) -> String {
                 p += 3;
             }
             mmtk::verif::meta::sanity_verify_context(g, l);
+            "ok".to_string()
+        }
+        "multi" => {
+            let ng = unum(args[1]);
+            let mut g = vec![];
+            let mut p = 2;
+            for i in 0..ng {
+                g.push(spec(i, true, &args[p..p + 3]));
+                p += 3;
+            }
+            let np = unum(args[p]);
+            p += 1;
+            if np > 8 {
+                return "bad-op".to_string();
+            }
+            let (mut ls, mut k) = (vec![], 0);
+            for _ in 0..np {
+                let nl = unum(args[p]);
+                p += 1;
+                let mut l = vec![];
+                for _ in 0..nl {
+                    l.push(spec(8 + k, false, &args[p..p + 3]));
+                    k += 1;
+                    p += 3;
+                }
+                ls.push(l);
+            }
+            if k > 8 {
+                return "bad-op".to_string();     // spec names s8..s15 must stay distinct (the checker dedups equal specs)
+            }
+            mmtk::verif::meta::sanity_verify_contexts(g, ls);
             "ok".to_string()
         }
         other => format!("bad-op {other}"),
